@@ -445,11 +445,16 @@ func (s *State) Clone() *State {
 	return n
 }
 
+var debugDead func(why string, t *Term)
+
 func (s *State) Assume(t *Term) {
 	if t == True {
 		return
 	}
 	if t == False {
+		if debugDead != nil && !s.dead {
+			debugDead("assume false", t)
+		}
 		s.dead = true
 	}
 	for _, p := range s.pc {
@@ -457,6 +462,9 @@ func (s *State) Assume(t *Term) {
 			return
 		}
 		if p == Not(t) {
+			if debugDead != nil && !s.dead {
+				debugDead("negation in pc", t)
+			}
 			s.dead = true
 		}
 	}
@@ -471,6 +479,9 @@ func (s *State) AssumeFact(t *Term) {
 		return
 	}
 	if t == False {
+		if debugDead != nil && !s.dead {
+			debugDead("fact false", t)
+		}
 		s.dead = true
 	}
 	for _, p := range s.facts {
@@ -483,12 +494,46 @@ func (s *State) AssumeFact(t *Term) {
 }
 
 // knows reports whether t (or its negation) is syntactically implied by the path condition.
+// eqConstIn: does the path condition pin x to a constant?
+func (s *State) eqConstIn(x *Term) *Term {
+	for _, p := range s.pc {
+		if p.Op == "=" {
+			if p.Args[0] == x && p.Args[1].IsConst() {
+				return p.Args[1]
+			}
+			if p.Args[1] == x && p.Args[0].IsConst() {
+				return p.Args[0]
+			}
+		}
+	}
+	return nil
+}
+
 func (s *State) knows(t *Term) (val, ok bool) {
 	if t == True {
 		return true, true
 	}
 	if t == False {
 		return false, true
+	}
+	// x == c2 while the path condition says x == c1
+	if eq, neg := t, false; true {
+		if eq.Op == "not" {
+			eq, neg = eq.Args[0], true
+		}
+		if eq.Op == "=" {
+			var x, c *Term
+			if eq.Args[1].IsConst() {
+				x, c = eq.Args[0], eq.Args[1]
+			} else if eq.Args[0].IsConst() {
+				x, c = eq.Args[1], eq.Args[0]
+			}
+			if x != nil {
+				if c1 := s.eqConstIn(x); c1 != nil && c1 != c {
+					return neg, true
+				}
+			}
+		}
 	}
 	nt := Not(t)
 	for _, p := range s.pc {
